@@ -243,6 +243,13 @@ def scalar_text(v, q='plain', as_key=False):
     raise HarnessError(f'cannot render scalar {v!r} (style {q}, key={as_key})')
 
 
+def key_text(k, v):
+    """Text of a mapping key; the key '<<' in front of an alias (or of the anchored mapping the alias stands for) is yaml's merge key."""
+    if k == '<<' and (v['t'] == 'alias' or (v['t'] == 'map' and v.get('anchor'))):
+        return '<<'
+    return scalar_text(k, 'plain', as_key=True)
+
+
 # ------------------------------------------------------------------------------------------ renderer
 
 def _has_verbatim(n):
@@ -288,7 +295,7 @@ class Renderer:
         if t == 'map':
             parts = []
             for k, v in n['items']:
-                parts.append(scalar_text(k, 'plain', as_key=True) + ': ' + self.tagged_inline(v))
+                parts.append(key_text(k, v) + ': ' + self.tagged_inline(v))
             return '{' + ', '.join(parts) + '}'
         if t == 'seq':
             return '[' + ', '.join(self.tagged_inline(v) for v in n['items']) + ']'
@@ -340,7 +347,7 @@ class Renderer:
         lines = []
         if n['t'] == 'map':
             for k, v in n['items']:
-                lines.append(pad + scalar_text(k, 'plain', as_key=True) + ':' + self.value(v, indent))
+                lines.append(pad + key_text(k, v) + ':' + self.value(v, indent))
         else:
             for v in n['items']:
                 lines.append(pad + '-' + self.value(v, indent))
